@@ -871,7 +871,16 @@ def _reduce_axis(a, axis, kind):
     return SArr(out, rdt, outshape)
 
 
+def _no_options(kw, fn, ignorable=()):
+    """model functions must not silently ignore an option the modelled routine would honour"""
+    for k_, v_ in kw.items():
+        if k_ in ignorable or v_ is None or v_ is False:
+            continue
+        raise Unsupported("numpy.%s(%s=...) is not modelled" % (fn, k_))
+
+
 def any_(a=None, axis=None, **kw):
+    _no_options({k_: v_ for k_, v_ in kw.items() if k_ != "a"}, "any", ("keepdims",) if not kw.get("keepdims") else ())
     if a is None:
         a = kw.get("a")
     if isinstance(a, SArr):
@@ -1082,7 +1091,8 @@ def sum_(a, axis=None):
     return tot
 
 
-def isin(element, test_elements, invert=False, **kw):
+def isin(element, test_elements, invert=False, assume_unique=False, **kw):
+    _no_options(kw, "isin")
     a = _asarr(element)
     if isinstance(test_elements, SArr):
         vals = test_elements.cells
@@ -1090,6 +1100,10 @@ def isin(element, test_elements, invert=False, **kw):
         vals = [scalar_cell(v) for v in test_elements]
     else:
         vals = [scalar_cell(test_elements)]
+    if assume_unique and not (len(vals) < 10 * max(1, len(a.cells)) ** 0.145):
+        # NumPy 1.26 in1d: below this size it compares element by element and the flag has no effect; above it a sort-based
+        # method may be chosen whose result for non-unique input is unspecified
+        raise Unsupported("numpy.isin(assume_unique=True) beyond the element-wise regime")
     out = []
     for c in a.cells:
         hits = [_cell_cmp(c, v, "eq") for v in vals]
@@ -1116,8 +1130,27 @@ def _has_inf(v):
     return builtins.any(isinstance(x, builtins.float) and x in (float("inf"), float("-inf")) for x in v)
 
 
-def average(l, **kw):
+def average(l, axis=None, weights=None, **kw):
+    _no_options(kw, "average")
+    if axis is not None:
+        raise Unsupported("numpy.average(axis=...)")
     v = _numlist(l)
+    if weights is not None:
+        w = _numlist(weights)
+        if len(w) != len(v):
+            raise TypeError("Length of weights not compatible with specified axis.")
+        if len(v) == 0:
+            raise ZeroDivisionError("Weights sum to zero, can't be normalized")
+        if builtins.any(_is_nan(x) for x in v) or _has_inf(v):
+            raise Unsupported("non-finite value in a weighted average")
+        tot, wt = None, None
+        for x, y in zip(v, w):
+            term = _mk_float(x) * y
+            tot = term if tot is None else tot + term
+            wt = y if wt is None else wt + y
+        if not isinstance(wt, Sym) and wt == 0:
+            raise ZeroDivisionError("Weights sum to zero, can't be normalized")
+        return tot / wt
     if len(v) == 0:
         return float("nan")   # numpy: mean of empty slice
     if builtins.any(_is_nan(x) for x in v):
@@ -1136,24 +1169,29 @@ mean = average
 
 
 def nanmean(l, **kw):
+    _no_options(kw, "nanmean")
     v = [x for x in _numlist(l) if not _is_nan(x)]
     return average(v)
 
 
 def nanstd(l, axis=None, ddof=0, **kw):
+    _no_options(kw, "nanstd")
     v = [x for x in _numlist(l) if not _is_nan(x)]
     return std(v, axis=axis, ddof=ddof)
 
 
 def nanmin(l, **kw):
+    _no_options(kw, "nanmin")
     return _minmax_list([x for x in _numlist(l) if not _is_nan(x)], False)
 
 
 def nanmax(l, **kw):
+    _no_options(kw, "nanmax")
     return _minmax_list([x for x in _numlist(l) if not _is_nan(x)], True)
 
 
 def nansum(l, **kw):
+    _no_options(kw, "nansum")
     return sum_([x for x in _numlist(l) if not _is_nan(x)])
 
 
@@ -1212,6 +1250,7 @@ def _minmax_list(l, want_max):
 
 
 def min_(l, **kw):
+    _no_options(kw, "min")
     if isinstance(l, SArr):
         return l.min()
     if isinstance(l, (SNum, builtins.int, builtins.float, rnp.number)):
@@ -1220,6 +1259,7 @@ def min_(l, **kw):
 
 
 def max_(l, **kw):
+    _no_options(kw, "max")
     if isinstance(l, SArr):
         return l.max()
     if isinstance(l, (SNum, builtins.int, builtins.float, rnp.number)):
@@ -1228,6 +1268,7 @@ def max_(l, **kw):
 
 
 def all_(a, **kw):
+    _no_options(kw, "all")
     if isinstance(a, SArr):
         return a.all()
     r = True
@@ -1245,8 +1286,11 @@ def isnan(x):
     return rnp.isnan(x)
 
 
-def array(x, dtype=None, **kw):
+def array(x, dtype=None, copy=True, **kw):
+    _no_options(kw, "array", ("order", "subok"))
     if isinstance(x, SArr):
+        if not copy:
+            return x.astype(dtype, copy=False) if dtype is not None else x       # numpy: no copy unless one is needed
         return x.astype(dtype) if dtype is not None else x.copy()
     if isinstance(x, rnp.ndarray):
         return from_numpy(x if dtype is None else x.astype(dtype))
@@ -1288,6 +1332,7 @@ def array(x, dtype=None, **kw):
 
 
 def asarray(x, dtype=None, **kw):
+    _no_options(kw, "asarray", ("order",))
     if isinstance(x, SArr) and (dtype is None or rnp.dtype(_np_dtype(dtype)) == x.dtype):
         return x
     return array(x, dtype)
@@ -1344,6 +1389,7 @@ def _shape_arg(shape):
 
 
 def zeros(shape, dtype=float, **kw):
+    _no_options(kw, "zeros", ("order",))
     dt = rnp.dtype(_np_dtype(dtype))
     shape = _shape_arg(shape)
     z = False if dt == BOOLDT else (Fraction(0) if dt.kind == "f" else 0)
@@ -1351,6 +1397,7 @@ def zeros(shape, dtype=float, **kw):
 
 
 def ones(shape, dtype=float, **kw):
+    _no_options(kw, "ones", ("order",))
     dt = rnp.dtype(_np_dtype(dtype))
     shape = _shape_arg(shape)
     o = True if dt == BOOLDT else (Fraction(1) if dt.kind == "f" else 1)
@@ -1429,6 +1476,7 @@ def arange(n, dtype=None, **kw):
 
 
 def indices(dimensions, dtype=int, **kw):
+    _no_options(kw, "indices")
     dims = tuple(dimensions)
     dt = rnp.dtype(_np_dtype(dtype))
     return from_numpy(rnp.indices(dims, dtype=dt))
